@@ -43,9 +43,10 @@ mod harness {
     use super::*;
     fn order(p: &PendingTxs) -> ([u8; LHM_CAP], usize) { let mut a = [0u8; LHM_CAP]; let mut i = 0; while i < p.txs.len { a[i] = p.txs.keys[i].0; i += 1; } (a, p.txs.len) }
     /// ONE arbitrary operation from an ARBITRARY pool (<= limit entries with distinct hashes, arbitrary announced-sets)
-    #[kani::proof] #[kani::unwind(6)]
-    fn pool() {
-        let limit: usize = kani::any(); kani::assume(limit >= 1 && limit <= 3);
+    #[kani::proof] #[kani::unwind(6)] fn pool() { pool_g::<3>(); }
+    #[kani::proof] #[kani::unwind(6)] fn pool_q() { pool_g::<2>(); }
+    fn pool_g<const MAXL: usize>() {
+        let limit: usize = kani::any(); kani::assume(limit >= 1 && limit <= MAXL);
         let n0: usize = kani::any(); kani::assume(n0 <= limit);
         let mut p = PendingTxs::new(limit);
         let mut refk = [0u8; 4]; let mut told = [[false; 2]; 4];   // told[hash][peer]
